@@ -177,6 +177,10 @@ pub struct Case {
     pub rplan: IoPlan,
     pub media: Vec<MediaOp>,
     pub seed: u64,
+    /// 0 = the code under test writes straight to the device; n > 0 = through a std::io::BufWriter of capacity n
+    /// that is dropped afterwards (what save_file / save_file_compressed do): bytes count as accepted only once the
+    /// buffer has been flushed, and an error while the buffer is dropped is swallowed by std
+    pub write_buffer: u64,
 }
 impl Case {
     pub fn to_json(&self) -> Value {
@@ -185,7 +189,7 @@ impl Case {
             "subject": {"type": self.subject, "size_class": self.sc, "hint": self.hint, "gen_seed": self.gen_seed},
             "container": self.container.name(),
             "crypto_bufsize": self.bufsize, "nonce": [self.nonce.0, self.nonce.1],
-            "key": self.key, "load_key": self.load_key,
+            "key": self.key, "load_key": self.load_key, "write_buffer": self.write_buffer,
             "plan": {
                 "write": self.wplan.to_json(),
                 "read": self.rplan.to_json(),
@@ -216,6 +220,7 @@ impl Case {
             rplan: IoPlan::from_json(&p["read"]),
             media: simcore::jarr(p, "media").iter().filter_map(MediaOp::from_json).collect(),
             seed: simcore::ju(v, "seed"),
+            write_buffer: simcore::ju(v, "write_buffer"),
         }
     }
 }
@@ -270,6 +275,7 @@ pub struct Env {
 }
 
 pub fn set_hooks(case: &Case) {
+    WRITE_BUFFER.with(|c| c.set(case.write_buffer));
     savefile::verif_hooks::set_nonce_override(Some(case.nonce));
     savefile::verif_hooks::set_crypto_bufsize(Some(case.bufsize as usize));
 }
@@ -287,9 +293,23 @@ fn err_string(e: &SavefileError) -> String {
     }
 }
 
+thread_local! {
+    /// capacity of the BufWriter put between the code under test and the device (0 = none); set per case
+    pub static WRITE_BUFFER: std::cell::Cell<u64> = const { std::cell::Cell::new(0) };
+}
 pub fn run_save(env: &Env, plan: IoPlan, budget: u64, force_progress: bool) -> (Res<()>, SimWriter) {
     let mut w = SimWriter::new(plan, budget, force_progress);
-    let r = guarded(|| env.subj.save(&env.value, &mut w, env.container, env.key));
+    let cap = WRITE_BUFFER.with(|c| c.get());
+    let r = guarded(|| {
+        if cap > 0 {
+            let mut bw = std::io::BufWriter::with_capacity(cap as usize, &mut w);
+            let r = env.subj.save(&env.value, &mut bw, env.container, env.key);
+            drop(bw); // flushes what is left, discarding any error - exactly what happens to the *_file helpers
+            r
+        } else {
+            env.subj.save(&env.value, &mut w, env.container, env.key)
+        }
+    });
     let res = match r {
         Ok(Ok(())) => Res::Ok(()),
         Ok(Err(e)) => Res::Err(err_string(&e)),
